@@ -59,10 +59,18 @@ class Interp:
         self.loops = []             # (symbol, lo, hi, step, node)
         self.out = []
         self.nsym = 0
+        self.conditional = []
 
     def sym(self, name):
         self.nsym += 1
         return sympy.Symbol("%s#%d" % (name, self.nsym), integer=True)
+
+    def as_num(self, v):
+        """a value read from the original-index array used in arithmetic: an opaque integer symbol (it is no longer `the original index of
+        position p` once something is added to it)"""
+        if isinstance(v, Load):
+            return sympy.Symbol("%s[%s]" % (v.obj.role, ",".join(str(i) for i in v.idx)), integer=True)
+        return v
 
     def ev(self, n):
         n = strip(n)
@@ -94,8 +102,18 @@ class Interp:
                 if isinstance(b, Obj) and b.role == "LEAF":
                     return sympy.Symbol("NV", integer=True, positive=True)
             raise AnalysisBroken("%s: call of '%s' not modelled by the copy-relation engine" % (self.facts.loc(n), nm))
+        if k == "UnaryOperator" and n.get("op") == "&":
+            v = self.ev(kids(n)[0])
+            if isinstance(v, Row) and isinstance(v.base, Obj) and len(v.idx) == 1:
+                return ("rowptr", v.base, self.as_num(v.idx[0]))        # pointer to a record of the per-particle array
+            raise AnalysisBroken("%s: address-of `%s` not modelled" % (self.facts.loc(n), self.facts.ntext(n)[:50]))
         if k == "BinaryOperator" and n.get("op") in ("+", "-", "*"):
             a, b = self.ev(kids(n)[0]), self.ev(kids(n)[1])
+            if not isinstance(a, Ptr):
+                a = self.as_num(a)
+            b = self.as_num(b)
+            if isinstance(a, tuple) and a and a[0] == "rowptr" and isinstance(b, sympy.Basic) and n["op"] in ("+", "-"):
+                return ("rowptr", a[1], a[2] + (b if n["op"] == "+" else -b))
             if isinstance(a, Ptr) and isinstance(b, sympy.Basic) and n["op"] in ("+", "-"):
                 return Ptr(a.obj, a.fixed, a.offset + (b if n["op"] == "+" else -b))
             if isinstance(a, sympy.Basic) and isinstance(b, sympy.Basic):
@@ -118,6 +136,8 @@ class Interp:
             if b.role == "DEST":
                 key = i
                 return Row(b, (key,))
+        if isinstance(b, tuple) and b and b[0] == "rowptr":
+            return Row(b[1], (b[2] + self.as_num(i),))
         if isinstance(b, Ptr):
             return Load(b.obj, b.fixed + (b.offset + i,))
         if isinstance(b, Row):
@@ -236,7 +256,11 @@ class Interp:
                 for c in s["c"][1:]:
                     self.run(c)
                 return
-            raise AnalysisBroken("%s: conditional copy not modelled" % self.facts.loc(s))
+            # a run-time condition: either side may execute, so the copies of each side must be right on their own
+            self.conditional.append(s)
+            for c in s["c"][1:]:
+                self.run(c)
+            return
         if k in ("CallExpr", "CXXMemberCallExpr") and s.get("cast") == "ToVoid":
             return
         raise AnalysisBroken("%s: statement %s not modelled by the copy-relation engine" % (self.facts.loc(s), k))
